@@ -37,6 +37,10 @@ class _Undefined:
 
 UNDEFINED = _Undefined()
 
+# An array index, as it appears in a reference token. Canonical decimal
+# (no sign, no leading zeros) as per RFC 6901, plus our negative index extension.
+RE_INDEX_TOKEN = re.compile(r"(?:0|-?[1-9][0-9]*)")
+
 
 class JSONPointer:
     """Identify a single, specific value in JSON-like data, as per RFC 6901.
@@ -108,17 +112,19 @@ class JSONPointer:
         )[1:]
 
     def _index(self, s: str) -> Union[str, int]:
-        # Reject non-zero ints that start with a zero.
-        if len(s) > 1 and s.startswith("0"):
+        # Reject non-zero ints that start with a zero, and anything else that
+        # `int()` would accept but is not a canonical decimal integer.
+        if not RE_INDEX_TOKEN.fullmatch(s):
             return s
 
         try:
             index = int(s)
-            if index < self.min_int_index or index > self.max_int_index:
-                raise JSONPointerIndexError("index out of range")
-            return index
         except ValueError:
             return s
+
+        if index < self.min_int_index or index > self.max_int_index:
+            raise JSONPointerIndexError("index out of range")
+        return index
 
     def _getitem(self, obj: Any, key: Any) -> Any:  # noqa: PLR0912
         try:
@@ -538,11 +544,7 @@ class RelativeJSONPointer:
     def _int_like(self, obj: Any) -> bool:
         if isinstance(obj, int):
             return True
-        try:
-            int(obj)
-        except ValueError:
-            return False
-        return True
+        return isinstance(obj, str) and bool(RE_INDEX_TOKEN.fullmatch(obj))
 
     def to(
         self,
